@@ -109,6 +109,20 @@ def main():
             else:
                 rc, so, trip = srun([SUM, '-' + sc['alg'], name])
                 ev.update({'alg': sc['alg'], 'check': 0, 'k': sc['k'], 'size': len(content), 'exit': rc, 'tripped': trip, 'reported_ok': 0, 'printed': 1 if name in so else 0})
+        elif kind == 'sumlistfault':
+            # a read error on the CHECKSUM LIST itself at its k-th read: nothing may be taken for verified
+            n = sc['nfiles']
+            for i in range(n): open(os.path.join(work, 'f%03d.txt' % i), 'wb').write(b'content %d\n' % i)
+            names = ['f%03d.txt' % i for i in range(n)]
+            rc0, so0, se0, _ = run([SUM, '-' + sc['alg']] + names)
+            lst = os.path.join(work, 'list.sum'); open(lst, 'wb').write(so0)
+            slog = os.path.join(work, 'strace.log')
+            p = subprocess.run(['strace', '-o', slog, '-P', lst, '-e', 'trace=read', '-e', 'inject=read:error=EIO:when=%d' % sc['k'], SUM, '-' + sc['alg'] + 'c', 'list.sum'],
+                               stdout=subprocess.PIPE, stderr=subprocess.PIPE, env=env0, cwd=work, timeout=120)
+            trip = 1 if os.path.exists(slog) and 'INJECTED' in open(slog).read() else 0
+            so = p.stdout.decode('latin1')
+            ev.update({'alg': sc['alg'], 'nfiles': n, 'listsize': len(so0), 'k': sc['k'], 'gen_exit': rc0, 'exit': p.returncode, 'tripped': trip,
+                       'nok': so.count(': OK'), 'stderr': 1 if p.stderr else 0})
         elif kind == 'sum':
             content = bytes(sc['content']); name = sc.get('name', 'data.bin')
             open(os.path.join(work, name), 'wb').write(content)
